@@ -18,6 +18,7 @@ import Driver.FailProp
 import Driver.Cancel
 import Driver.Sasl
 import Driver.Txn
+import Driver.Typed
 
 structure DState where
   sess : Amqp.Session.St := Amqp.Session.init 0 0 0
@@ -80,6 +81,7 @@ def handle (st : DState) (line : String) : DState × String :=
   | "Q" :: ws => (st, (Driver.Cancel.step ws).getD "bad-op")
   | "X" :: ws => (st, (Driver.Sasl.step ws).getD "bad-op")
   | "T" :: ws => (st, (Driver.Txn.step ws).getD "bad-op")
+  | "G" :: ws => (st, (Driver.Typed.step ws).getD "bad-op")
   | "N" :: ws =>
     match Driver.Limits.step st.limits ws with
     | some (s, out) => ({ st with limits := s }, out)
